@@ -19,6 +19,8 @@ def gen_scenario(seed, i, plain=False):
         return call_catch_scenario(rng, i)
     if not plain and i % 10 == 6:
         return reload_scenario(seed, i)
+    if not plain and i % 10 == 8:
+        return container_catch_scenario(rng, i)
     g = gen.WfGen(rng.fork("wf"), depth=rng.pick([1, 2]), max_steps=3, max_branches=2, max_acts=2, p_if=8, p_branches=35,
                   needs=False, mixed=False, act_kinds=((gen.IRQ, 7), (gen.MSG, 1)), catches=True)
     w = g.workflow("m1")
@@ -57,6 +59,28 @@ def call_catch_scenario(rng, i):
         ops += [["act", "next", "p1", {"open": 0}, {}], ["runall", pol, rng.below(1 << 30)]]
     return {"id": f"c06-call-{i}", "config": {"keep": True, "dump_each": True}, "models": [parent, child], "ops": ops,
             "exprs": {"(x == 0)": ["bin", "==", ["var", "x"], ["lit", 0]]}, "features": ["call-catch"], "expect_completed": True}
+
+
+def container_catch_scenario(rng, i):
+    """a container act (block) that declares a catch: the error of one of its child acts is taken by that catch, the steps of the catch
+    run once, the other children go on, and when everything beneath it has ended the act completes and the flow continues behind it"""
+    mode = rng.pick(["sequence", "parallel"])
+    kids = [{"id": "c1", "uses": gen.IRQ, "key": "kc1"}] + ([{"id": "c2", "uses": gen.IRQ, "key": "kc2"}] if rng.chance(1, 2) else [])
+    hacts = rng.pick([[], [{"id": "h1a", "uses": gen.MSG, "key": "kh1a"}], [{"id": "h1a", "uses": gen.IRQ, "key": "kh1a"}]])
+    c = {"steps": [{"id": "h1", "acts": hacts}] if (hacts or rng.chance(1, 2)) else []}
+    if rng.chance(1, 2):
+        c["on"] = "e1"
+    blk = {"id": "call1", "uses": "acts.core.block", "params": {"mode": mode, "acts": kids}, "catches": [c]}
+    parent = {"id": "m1", "steps": [{"id": "s1", "acts": [blk]}, {"id": "s2", "acts": [{"id": "z", "uses": gen.IRQ, "key": "kz"}]}]}
+    pol = rng.pick(["fifo", "lifo", "rand"])
+    ops = [["deploy", 0], ["start", "m1", {"pid": "p1", "x": 0, "y": 0}], ["runall", pol, rng.below(1 << 30)]]
+    if len(kids) == 2 and mode == "parallel" and rng.chance(1, 2):
+        ops += [["act", "next", "p1", {"nid": "c2", "k": -1}, {}], ["runall", pol, rng.below(1 << 30)]]
+    ops += [["act", "error", "p1", {"nid": "c1", "k": -1}, {"ecode": "e1", "message": "boom"}], ["runall", pol, rng.below(1 << 30)]]
+    for _ in range(6):
+        ops += [["act", "next", "p1", {"open": 0}, {}], ["runall", pol, rng.below(1 << 30)]]
+    return {"id": f"c06-block-{i}", "config": {"keep": True, "dump_each": True}, "models": [parent], "ops": ops, "exprs": {},
+            "features": ["container-catch"], "expect_completed": True, "no_bubble": True}
 
 
 def reload_scenario(seed, i):
@@ -116,7 +140,7 @@ def run(ctx):
             obs = by_op.get(i)
             if obs is None:
                 break
-            if op[0] == "act" and op[1] == "error" and op[2] == "p1" and prev_dump is not None:
+            if op[0] == "act" and op[1] == "error" and op[2] == "p1" and prev_dump is not None and not sc.get("no_bubble"):
                 ok = any(o.get("k") == "res" and o.get("ok") for o in obs)
                 tgt = [o for o in obs if o.get("k") == "target"]
                 if ok and tgt:
